@@ -290,7 +290,7 @@ class NpCalls:
             interp.emit('masked_ufunc', node, fn=name, mask=kwargs['where'], out=o, fill=o.fill if o is not None else None)
         g = x.geo
         m = mono_of(x)
-        out = x.only('ty', 'axes', 'prov').w(deps=d, store='fresh' if x.ty == 'ndarray' else None, fn=(name, x))
+        out = x.only('ty', 'axes', 'prov', 'mono_unknown').w(deps=d, store='fresh' if x.ty == 'ndarray' else None, fn=(name, x))
         if name == 'sqrt':
             return out.w(geo=('DIST',) if g == ('DIST2',) else None, mono=m ** 0.5 if m is not None else None)
         if name == 'square':
@@ -534,7 +534,8 @@ class NpCalls:
                 tag = name if name not in ('amin', 'amax') else name[1:]
                 nm = m.wrap(f'{tag}[{",".join(sorted(removed))}]' if removed else tag)
         out = AV(ty='ndarray' if (new_axes is None or len(new_axes) > 0) else 'float', geo=ng, axes=new_axes, deps=d,
-                 store='fresh', mono=nm, red=(name, x, axis, tuple(sorted(removed))), idx=x.idx if name in ORDER_REDUCERS else None)
+                 store='fresh', mono=nm, red=(name, x, axis, tuple(sorted(removed))), idx=x.idx if name in ORDER_REDUCERS else None,
+                 mono_unknown=x.mono_unknown)
         if name in ('any', 'all'):
             out = out.w(dtype='bool', ty='bool' if axis == 'none' else 'ndarray', idx=None, mono=None, geo=None)
         if name in ('argmin', 'argmax'):
@@ -573,6 +574,13 @@ class NpCalls:
         m = mono_of(x)
         return AV(ty='ndarray', geo=ng, axes=new_axes, deps=self.deps_of(args, kwargs), store='fresh', mono=m.wrap('norm') if m is not None else None,
                   norm_of=x, norm_removed=tuple(sorted(removed)))
+
+    def np_linalg_det(self, interp, st, args, kwargs, node):
+        x = as_array(args[0])
+        d = self.deps_of(args, kwargs)
+        if x.geo is not None and x.geo[0] == 'LATMAT':
+            return AV(ty='float', deps=d, mono=Mono.atom('volume', (3, 0, 0), {'ang': 3}), signed_volume=True)
+        return AV(ty='float', deps=d)
 
     def np_dot(self, interp, st, args, kwargs, node):
         a, b = as_array(args[0]), as_array(args[1])
